@@ -258,6 +258,11 @@ _DEFAULT_BG_COLOR = styles.ColorType((0, 0, 0, 204))
 _DEFAULT_ROWS = 23
 _DEFAULT_COLS = 40
 
+# a comment block starts with NOTE followed by a space, a tab or the end of the line, and a style block with a line
+# that holds STYLE only: a cue identifier such as STYLE2 or NOTES is neither
+_NOTE_RE = re.compile(r"NOTE(?:[ \t].*)?")
+_STYLE_RE = re.compile(r"STYLE[ \t]*")
+
 _VTT_PCT_RE = re.compile(r"(\d+\.?\d*)%")
 
 def parse_vtt_pct(value: str):
@@ -565,11 +570,11 @@ def to_model(data_file: typing.IO, _config = None, progress_callback=lambda _: N
       if _EMPTY_RE.fullmatch(line):
         continue
 
-      if line.startswith("NOTE "):
+      if _NOTE_RE.fullmatch(line):
         state = _State.NOTE
         continue
 
-      if line.startswith("STYLE"):
+      if _STYLE_RE.fullmatch(line):
         state = _State.STYLE
         continue
 
